@@ -295,6 +295,8 @@ def main(run: Run):
     patterns_l1.add_to(run)
     from . import busadd_l1
     busadd_l1.add_to(run, ['wb_decoder_add'])
+    from . import decoder_l1
+    decoder_l1.add_to(run, "wb")
     from . import validation
     validation.add_to(run, ['wb_decoder_add', 'memory_map_setters'])
     return run.finish(
